@@ -4,6 +4,7 @@
 Both streams consist of blocks: '> op', 'R result', 'E event'*, ('+S'|'-S') delta lines, model-only
 'V monitor' lines.  Compared per operation: accept/reject/halt, the ordered hub events, and the
 state delta as a set.  Returns a list of mismatches (first one first)."""
+import re
 import sys, json
 
 SECTIONS = None
@@ -92,10 +93,35 @@ def roundtrip_analysis(impl_path):
     state = set()
     out = {'exports': 0, 'reimports': 0, 'export_rejects': [], 'reimport_diffs': []}
     n = 0
+    fresh_import = False      # an accepted re-import whose first block has not ended yet
+    bounds_changed = False    # governance changed a node price bound since then
     for b in blocks(impl_path):
         n += 1
         kind = b['op'].split()[0] if b['op'] else ''
+        if kind == 'gov' and rclass(b['R']) == 'accept' and re.search(r'space=node key=(Max|Min)(Gigabyte|Hourly)Prices', b['op']):
+            bounds_changed = True
+        if kind == 'end' and fresh_import:
+            # the first block of the re-imported chain runs the node price sweep (InitGenesis marks every bound as
+            # modified). In a state exported from a reachable state every price is within the bounds, so the sweep
+            # changes nothing: a node re-priced by this hook, with no bound changed in the block, is a record
+            # altered by the round trip
+            if not bounds_changed and rclass(b['R']) == 'accept':
+                def prices(sign):
+                    d = {}
+                    for l in b['D']:
+                        t = l.split()
+                        if l.startswith(sign + 'S vpn node 10') and len(t) > 4:
+                            f = dict(y.split('=', 1) for y in t[4:] if '=' in y)
+                            d[t[3]] = (f.get('gb'), f.get('hr'), l[1:])
+                    return d
+                old, new_ = prices('-'), prices('+')
+                ch = [k for k in new_ if k in old and old[k][:2] != new_[k][:2]]
+                if ch:
+                    out['reimport_diffs'].append({'index': n, 'lost': [old[k][2] for k in ch][:20], 'gained': [new_[k][2] for k in ch][:20],
+                                                  'sections': ['vpn/node/10'], 'what': 'node re-priced by the first block after a re-import'})
+            fresh_import = False
         if kind == 'reimport' and rclass(b['R']) == 'accept':
+            fresh_import, bounds_changed = True, False
             new = {l[1:] for l in b['D'] if l.startswith('+')}
             ign = lambda l: l.startswith('S sdkmint')
             lost = sorted(l for l in state - new if not ign(l))
